@@ -48,12 +48,14 @@ impl Check for C01 {
 
     fn budget(&self, tier: &str) -> u64 { if tier == "thorough" { 60_000 } else { 5_000 } }
 
-    fn generate(&self, seed: u64, _tier: &str, env: &Env) -> Trace {
+    fn generate(&self, seed: u64, tier: &str, env: &Env) -> Trace {
         let mut r = Rng::new(seed);
+        // thorough tier: half of the runs are three times as long (deeper histories)
+        let dm: u64 = if tier == "thorough" && seed % 2 == 0 { 3 } else { 1 };
         let g = RawGen::new(&env.data);
         let mut t = base_instant(&mut r, &env.host_rule);
         let mut events = Vec::new();
-        let n_events = 8 + r.below(30);
+        let n_events = (8 + r.below(30)) * dm;
         let junk_rate = *r.pick(&[0u64, 1, 3, 6]);      // swarm: how much of the text is mutated
         let move_rate = *r.pick(&[0u64, 1, 3]);         // how often the clock moves inside an evaluation
         let cfg_rate = *r.pick(&[0u64, 1, 2]);
